@@ -31,7 +31,7 @@ EXPLANATION = "exhaustive bounded exploration of store histories and set-iterati
 ASSUMPTIONS = ["per-process memory layout is owned through the set-iteration seam inside monkeytype.stubs only", "three PYTHONHASHSEED values"]
 
 MOD = "vfx.shapes"
-MODS = ["vfx.shapes", "vfx.shapes2"]
+MODS = ["vfx.shapes", "vfx.shapes2", "vfx.twa", "vfx.twb"]
 SEP = "\n#####MODULE#####\n"
 
 
@@ -43,8 +43,12 @@ def families():
 
     import vfx.shapes as S
     import vfx.shapes2 as S2
+    import vfx.twa as TA
+    import vfx.twb as TB
 
     from mcheck.oracles.stubeval import mk_atd
+
+    assert TA.tw.__code__ == TB.tw.__code__ and TA.tw.__code__ is not TB.tw.__code__, "twin fixtures no longer have equal code objects"
 
     NT = type(None)
     fam: Dict[str, List[Tuple[Any, Dict[str, Any], Any, Any]]] = {
@@ -62,6 +66,11 @@ def families():
         "nested-class-methods": [(S.Outer.Inner.imeth, {"self": S.Outer.Inner, "x": int}, int, None), (S.Outer.Inner.ismeth, {"x": str}, str, None), (S.Outer.Inner.Deep.dmeth, {"self": S.Outer.Inner.Deep, "x": int}, NT, None), (S.Outer.ometh, {"self": S.Outer, "x": float}, float, None)],
         "typed-dict-subset-in-tuples": [(S.mfunc, {"x": Tu[mk_atd({"a": int, "b": str}, {})]}, int, None), (S.mfunc, {"x": Tu[mk_atd({"a": int}, {})]}, int, None), (S.wrapped.__wrapped__, {"x": D[int, mk_atd({"a": int, "b": str}, {})]}, int, None), (S.wrapped.__wrapped__, {"x": D[int, mk_atd({"a": int}, {})]}, int, None), (S.wrapped.__wrapped__, {"x": D[int, mk_atd({"a": int, "b": str, "c": int}, {})]}, int, None)],
         "differing-argument-name-sets": [(S.Base.meth, {"self": S.Base, "x": int}, int, None), (S.Base.meth, {"self": S.Base}, int, None), (S.Base.meth, {"self": S.Derived, "x": str}, str, None), (S.mfunc, {}, int, None), (S.mfunc, {"x": float}, int, None)],
+        # a type first used by a None-defaulted parameter of one module (Optional[...]), then by required / otherwise
+        # defaulted parameters of another module
+        "optional-parameter-then-plain-parameter-two-modules": [(S.mfunc, {"x": int}, int, None), (S2.req, {"p": int}, int, None), (S2.deflt, {"q": int}, NT, None), (S2.req, {"p": S.Base}, S.Base, None), (S.mfunc, {"x": S.Base}, NT, None)],
+        # functions with EQUAL code objects (same text, same lines) in two modules that differ in defaults and annotations
+        "twin-code-different-defaults": [(TA.tw, {"a": int, "b": int}, int, None), (TB.tw, {"a": int, "b": int}, int, None), (TA.TwData.__init__, {"self": TA.TwData, "count": int, "label": str}, NT, None), (TB.TwData.__init__, {"self": TB.TwData, "count": int, "label": str}, NT, None)],
         "dict-unions": [(S.mfunc, {"x": D[str, int]}, D[str, int], None), (S.mfunc, {"x": D[str, str]}, D[str, str], None), (S.mfunc, {"x": D[int, int]}, L[int], None), (S.mfunc, {"x": L[int]}, L[str], None), (S.mfunc, {"x": L[typing_any()]}, L[typing_any()], None)],
     }
     return fam
@@ -409,7 +418,8 @@ def explore_family(ctx: Ctx, fname: str) -> Result:
                 seeds = [0, 1, ctx.seed % 997 + 2]
                 for hs in seeds:
                     env = dict(os.environ, PYTHONHASHSEED=str(hs), MCFG_DB=db, MCFG_K=str(k))
-                    argv = [sys.executable, "-W", "ignore", str(VERIF / "mcheck" / "props" / "c14_child.py"), db, str(k), "1" if rewriting else "0", str(n + 2)]
+                    # (the second seed's interpreter generates the module stubs in the reverse order)
+                    argv = [sys.executable, "-W", "ignore", str(VERIF / "mcheck" / "props" / "c14_child.py"), db, str(k), "1" if rewriting else "0", str(n + 2), "rev" if hs == 1 else "fwd"]
                     r = subprocess.run(argv, capture_output=True, text=True, env=env)
                     res.states += 1
                     case = {"family": fname, "k": k, "rewriting": rewriting, "history": 0, "policy": ["hashseed", hs, 0]}
